@@ -1,28 +1,22 @@
 //! C01 evaluated directly on the real editor: no operation and no read-only accessor may panic or hang.
 //!
-//! Classification is STATE-BASED.  The one recorded class (findings F02 and F03) is
-//! `no-word-for-buffered-syllable`: in the state the failing call started from, some syllable of the
-//! pre-edit buffer (or of an open phrase selector's copy of it) has no one-syllable word under a lookup
-//! strategy in force.  A panic or hang from any other state is `new`.
+//! No known class remains: EVERY panic, hang (look-up fuel) or accessor failure is reported as `new`.
+//! The former class `no-word-for-buffered-syllable` (findings F02 and F03: some syllable of the pre-edit
+//! buffer, or of an open phrase selector's copy of it, has no one-syllable word under a lookup strategy
+//! in force) was repaired in the repository (43e8036, 0f255ea, ce48759).  Its state predicate is still
+//! evaluated on every step, as a STATISTIC only (`c01_steps_from_noword_state`, …: the evidence must
+//! show that such states are exercised) and as information in the report text.
 use crate::step::*;
 use vharness::Out;
 
-pub const KNOWN_CLASS: &str = "no-word-for-buffered-syllable";
-
 pub fn check(out: &mut Out, st: &Step) {
     if st.outcome != "ok" {
-        let (class, why) = match st.no_word_pre {
-            Some(w) => (KNOWN_CLASS, w),
-            None => ("new", "every buffered syllable has a word"),
-        };
-        out.oracle_fail("C01", class, &format!("{} in operation `{}` [pre-state: {}]: {}", st.outcome, st.op, why, st.hist()));
+        let why = st.no_word_pre.unwrap_or("every buffered syllable has a word");
+        out.oracle_fail("C01", "new", &format!("{} in operation `{}` [pre-state: {}]: {}", st.outcome, st.op, why, st.hist()));
         return;
     }
     if let Some((getter, how)) = st.getter_fail {
-        let (class, why) = match st.no_word_post {
-            Some(w) => (KNOWN_CLASS, w),
-            None => ("new", "every buffered syllable has a word"),
-        };
-        out.oracle_fail("C01", class, &format!("{} in accessor {} after operation `{}` [state: {}]: {}", how, getter, st.op, why, st.hist()));
+        let why = st.no_word_post.unwrap_or("every buffered syllable has a word");
+        out.oracle_fail("C01", "new", &format!("{} in accessor {} after operation `{}` [state: {}]: {}", how, getter, st.op, why, st.hist()));
     }
 }
